@@ -722,6 +722,8 @@ Lemma eval_add_Q_int_l a b r z q : eval a r = VInt z -> eval b r = VQ q -> eval 
 Proof. intros Ha Hb. cbn [eval]. rewrite Ha, Hb. reflexivity. Qed.
 Lemma eval_mul_int_Q a b r z q : eval a r = VInt z -> eval b r = VQ q -> eval (EMul a b) r = VQ (Qred (inject_Z z * q)).
 Proof. intros Ha Hb. cbn [eval]. rewrite Ha, Hb. reflexivity. Qed.
+Lemma eval_index_dict a i r d k v : eval a r = VDict d -> eval i r = k -> is_bad k = false -> dict_get k d = Some v -> eval (EIndex a i) r = v.
+Proof. intros Ha <- Hk Hv. cbn [eval]. rewrite Ha. destruct (eval i r); try discriminate Hk; cbn [bad2]; now rewrite Hv. Qed.
 Lemma eval_call0 f r : eval (ECall f []) r = prim f []. Proof. reflexivity. Qed.
 Lemma eval_call1 f a r v : eval a r = v -> is_bad v = false -> eval (ECall f [a]) r = prim f [v].
 Proof. intros <- H. cbn [eval]. destruct (eval a r); try discriminate H; reflexivity. Qed.
@@ -941,6 +943,7 @@ Arguments exec_seq {prim wfuel}.
 Arguments exec_if {prim wfuel}.
 Arguments eval_var {prim}.
 Arguments eval_call0 {prim}.
+Arguments eval_index_dict {prim}.
 Arguments eval_mul_int_Q {prim}.
 Arguments eval_add_Q_int_l {prim}.
 Arguments eval_mul_rep {prim}.
